@@ -272,13 +272,27 @@ func runCheck(o checkOpts) checkOutcome {
 			undecided = append(undecided, "dead clause "+d)
 			exit = 2
 		}
+		deadGot := 0
+		for _, ob := range r.obligs {
+			if ob.kind == "cover" && ob.status == "unsat" && strings.Contains(ob.name, "/cover:return#") {
+				deadGot++
+			}
+		}
+		deadOK := deadGot == r.deadWant && deadGot > 0
+		if deadGot != r.deadWant && r.deadWant > 0 {
+			say("cannot decide: %s declares %d unreachable returns, %d found\n", r.name, r.deadWant, deadGot)
+			undecided = append(undecided, fmt.Sprintf("dead returns of %s: declared %d, found %d", r.name, r.deadWant, deadGot))
+			exit = 2
+		}
 		for _, ob := range r.obligs {
 			all = append(all, ob)
 			solverTime += ob.secs
 			if ob.kind == "cover" {
 				if ob.status != "sat" {
 					// contradictory precondition (or solver could not show satisfiable)
-					if ob.status == "unsat" {
+					if ob.status == "unsat" && deadOK && strings.Contains(ob.name, "/cover:return#") {
+						// declared: defensive returns that the callee contracts make unreachable
+					} else if ob.status == "unsat" {
 						say("cannot decide: %s is unsatisfiable — contradictory precondition or assumptions (vacuous proof)\n", ob.name)
 						undecided = append(undecided, "vacuous: "+ob.name)
 						exit = 2
